@@ -9,9 +9,8 @@ if __name__ == "__main__":
     root = sys.argv[1] if len(sys.argv) > 1 else "/repo"
     prog = Program(root, normalise=False)
     for m in prog.by_rel.values():
-        if m.pyx is None:
-            norm.canon_tree(m.tree)
-    data = norm.build_frozen([(rel, m.tree) for rel, m in sorted(prog.by_rel.items()) if m.pyx is None])
+        norm.canon_tree(m.tree)
+    data = norm.build_frozen([(rel, m.tree) for rel, m in sorted(prog.by_rel.items())])
     with open(norm.FROZEN_PATH, "w") as fh:
         json.dump(data, fh, indent=0, sort_keys=True)
     print("frozen:", sum(len(v["functions"]) for v in data.values()), "functions in", len(data), "modules")
